@@ -266,6 +266,25 @@ def case_inbreeding(col, p):
                     mg = got.sum(axis=tuple(q for q in range(d) if q != k))
                     if not float(np.abs(mg - one).max()) <= (1e-9 + 3e-13 / min(Fs) * d) * max(mass, 1e-300):
                         col.violation('C05:from_phi_inbreeding:marginal_consistency', dict(info, pop=k + 1), {'maxerr': float(np.abs(mg - one).max()), 'mass': mass})
+            if min(Fs) > 0:
+                # ascertainment on heterozygosity in population k = sampling of the density weighted by x_k (1 - x_k); the caller's density stays
+                for k, het in zip(range(min(d, 3)), ('xx', 'yy', 'zz')):
+                    snap = phi.copy()
+                    try:
+                        fa = np.asarray(dadi.Spectrum.from_phi_inbreeding(phi, list(ns), grids, Fs, list(ploidys), mask_corners=False, het_ascertained=het).data)
+                    except Exception as e:
+                        col.violation('C05:from_phi_inbreeding:het_%s:raises' % het, info, '%s: %s' % (type(e).__name__, e))
+                        continue
+                    col.tick(transitions=1)
+                    if not np.array_equal(phi, snap):
+                        col.violation('C05:from_phi_inbreeding:het_%s:density_modified' % het, info, {'maxchange': float(np.abs(phi - snap).max())})
+                        phi[...] = snap
+                    wshape = [1] * d
+                    wshape[k] = G
+                    wk = (grids[k] * (1 - grids[k])).reshape(wshape)
+                    fb = np.asarray(dadi.Spectrum.from_phi_inbreeding(phi * wk, list(ns), grids, Fs, list(ploidys), mask_corners=False).data)
+                    if not float(np.abs(fa - fb).max()) <= 1e-12 * max(float(np.abs(fb).max()), 1e-300):
+                        col.violation('C05:from_phi_inbreeding:het_%s:not_the_weighted_density' % het, info, {'maxerr': float(np.abs(fa - fb).max())})
             err = float(np.abs(got - direct).max()) / max(mass, 1e-300)
             Fmax = max(Fs)
             if Fmax <= 1e-6 and all(pl == 2 for pl in ploidys) and not err <= 1e-4:
